@@ -89,10 +89,11 @@ func (this *Hnsw) Insert(id uuid.UUID, value math.Vector, metadata Metadata, ver
 			return err
 		}
 		if atomic.CompareAndSwapPointer(&this.entrypoint, nil, unsafe.Pointer(vertex)) {
+			this.repairEntrypoint()
 			return nil
-		} else {
-			vertex.setLevel(vertexLevel)
 		}
+		// Another first insert won. The vertex is already visible through the id map:
+		// it is linked as it is (level 0), its edge sets and their locks must not be replaced
 	} else {
 		vertex = newHnswVertex(id, value, metadata, vertexLevel)
 		if err := this.storeVertex(vertex); err != nil {
@@ -101,6 +102,14 @@ func (this *Hnsw) Insert(id uuid.UUID, value math.Vector, metadata Metadata, ver
 	}
 
 	entrypoint := (*hnswVertex)(atomic.LoadPointer(&this.entrypoint))
+	for entrypoint == nil {
+		// Every other vertex has been removed meanwhile: this one becomes the entrypoint
+		if atomic.CompareAndSwapPointer(&this.entrypoint, nil, unsafe.Pointer(vertex)) {
+			this.repairEntrypoint()
+			return nil
+		}
+		entrypoint = (*hnswVertex)(atomic.LoadPointer(&this.entrypoint))
+	}
 	minDistance := this.space.Distance(vertex.vector, entrypoint.vector)
 	for l := entrypoint.level; l > vertex.level; l-- {
 		entrypoint, minDistance = this.greedyClosestNeighbor(vertex.vector, entrypoint, minDistance, l)
@@ -139,8 +148,26 @@ func (this *Hnsw) Insert(id uuid.UUID, value math.Vector, metadata Metadata, ver
 	if entrypoint != nil && vertex.level > entrypoint.level {
 		atomic.CompareAndSwapPointer(&this.entrypoint, unsafe.Pointer(entrypoint), unsafe.Pointer(vertex))
 	}
+	// The vertices this one was linked through may all have been removed meanwhile
+	this.repairEntrypoint()
 
 	return nil
+}
+
+// Replaces an entrypoint that is missing or marked removed by a stored vertex
+// (until one is found that stays, or the index is empty)
+func (this *Hnsw) repairEntrypoint() {
+	for {
+		entrypoint := (*hnswVertex)(atomic.LoadPointer(&this.entrypoint))
+		if entrypoint != nil && !entrypoint.isDeleted() {
+			return
+		}
+		next := this.topVertex()
+		if next == nil && entrypoint == nil {
+			return
+		}
+		atomic.CompareAndSwapPointer(&this.entrypoint, unsafe.Pointer(entrypoint), unsafe.Pointer(next))
+	}
 }
 
 func (this *Hnsw) Get(id uuid.UUID) (math.Vector, error) {
